@@ -88,4 +88,146 @@ example : PlanDeep [(Field.imm 5, CopyOp.assign), (Field.ref 0, CopyOp.clone), (
 /-- and the negative: sharing a reference is observable (the shape of defect F2) -/
 example : locsOf (copyRec [(Field.ref 0, CopyOp.assign)] [(0, [1])] 1).1 = [0] := by decide
 
+
+/-! ### the copy is equal in value, leaves the original alone, and the plan's depth is necessary -/
+
+/-- what a field shows: an immediate value, or the contents of the cell it refers to -/
+def view (h : Heap) : Field → Nat ⊕ List Nat
+  | Field.imm v => .inl v
+  | Field.ref l => .inr ((h.read l).getD [])
+
+theorem read_cons_ne (h : Heap) (k l : Nat) (c : List Nat) (hne : l ≠ k) :
+    Heap.read ((k, c) :: h) l = h.read l := by
+  have : (l == k) = false := by simp; exact hne
+  simp [Heap.read, List.lookup, this]
+
+/-- copying allocates at `next` and above only: every cell below reads as before, whatever the plan -/
+theorem copyRec_read_below (fs : List (Field × CopyOp)) (h : Heap) (next l : Nat) (hl : l < next) :
+    (copyRec fs h next).2.1.read l = h.read l := by
+  induction fs generalizing h next with
+  | nil => simp [copyRec]
+  | cons f fs ih =>
+    obtain ⟨fld, op⟩ := f
+    cases fld with
+    | imm v => simp only [copyRec]; exact ih h next hl
+    | ref l0 =>
+      cases op with
+      | assign => simp only [copyRec]; exact ih h next hl
+      | clone =>
+        simp only [copyRec]
+        rw [ih ((next, (h.read l0).getD []) :: h) (next + 1) (by omega)]
+        exact read_cons_ne h next l _ (by omega)
+
+/-- **copy_leaves_original**: making a copy changes no cell of the original -/
+theorem copy_leaves_original (fs : List (Field × CopyOp)) (h : Heap) (next : Nat)
+    (hlt : ∀ l ∈ locsOf (fs.map (·.1)), l < next) :
+    ∀ lo ∈ locsOf (fs.map (·.1)), (copyRec fs h next).2.1.read lo = h.read lo :=
+  fun lo hlo => copyRec_read_below fs h next lo (hlt lo hlo)
+
+theorem view_below (fs : List (Field × CopyOp)) (h : Heap) (next : Nat) (f : Field)
+    (hf : ∀ l, f = Field.ref l → l < next) :
+    view (copyRec fs h next).2.1 f = view h f := by
+  cases f with
+  | imm v => rfl
+  | ref l => simp only [view]; rw [copyRec_read_below fs h next l (hf l rfl)]
+
+/-- **copy_equal_in_value**: field by field the copy shows, in the heap after copying, what the original showed
+    before (and by `copy_leaves_original` still shows) -/
+theorem copy_equal_in_value (fs : List (Field × CopyOp)) (h : Heap) (next : Nat)
+    (hlt : ∀ l ∈ locsOf (fs.map (·.1)), l < next) :
+    (copyRec fs h next).1.map (view (copyRec fs h next).2.1) = (fs.map (·.1)).map (view h) := by
+  induction fs generalizing h next with
+  | nil => simp [copyRec]
+  | cons f fs ih =>
+    obtain ⟨fld, op⟩ := f
+    cases fld with
+    | imm v =>
+      simp only [copyRec, List.map_cons, view]
+      rw [ih h next (fun l hl => hlt l (by simpa [locsOf] using hl))]
+    | ref l0 =>
+      have hl0 : l0 < next := hlt l0 (by simp [locsOf])
+      have hlt' : ∀ l ∈ locsOf (fs.map (·.1)), l < next :=
+        fun l hl => hlt l (by simp only [List.map_cons, locsOf]; exact List.mem_cons_of_mem _ hl)
+      cases op with
+      | assign =>
+        simp only [copyRec, List.map_cons]
+        rw [ih h next hlt', view_below fs h next (Field.ref l0) (fun l e => by cases e; exact hl0)]
+      | clone =>
+        simp only [copyRec, List.map_cons]
+        rw [ih ((next, (h.read l0).getD []) :: h) (next + 1) (fun l hl => by have := hlt' l hl; omega)]
+        congr 1
+        · simp only [view]
+          rw [copyRec_read_below fs _ (next + 1) next (by omega)]
+          simp [Heap.read, List.lookup]
+        · apply List.map_congr_left
+          intro f hf
+          cases f with
+          | imm v => rfl
+          | ref l =>
+            simp only [view]
+            have : l ∈ locsOf (fs.map (·.1)) := by
+              clear ih hlt hlt'
+              induction fs with
+              | nil => cases hf
+              | cons g gs ihg =>
+                obtain ⟨g1, g2⟩ := g
+                simp only [List.map_cons, List.mem_cons] at hf
+                rcases hf with e | e
+                · simp only [List.map_cons]; rw [← e]; simp [locsOf]
+                · have := ihg e
+                  simp only [List.map_cons]
+                  cases g1 <;> simp [locsOf, this]
+            rw [read_cons_ne h next l _ (by have := hlt' l this; omega)]
+
+/-- the other direction of `write_through_copy_invisible`: a write through the original does not show in the copy -/
+theorem write_through_original_invisible (fs : List (Field × CopyOp)) (h : Heap) (next : Nat) (hd : PlanDeep fs)
+    (hlt : ∀ l ∈ locsOf (fs.map (·.1)), l < next) (lo : Nat) (v : List Nat)
+    (hlo : lo ∈ locsOf (fs.map (·.1))) :
+    ∀ lc ∈ locsOf (copyRec fs h next).1,
+      ((copyRec fs h next).2.1.write lo v).read lc = (copyRec fs h next).2.1.read lc := by
+  intro lc hlc
+  apply write_other
+  intro e
+  subst e
+  exact deep_plan_disjoint fs h next hd hlt lo hlc hlo
+
+theorem write_same (h : Heap) (l : Nat) (c v : List Nat) (hr : h.read l = some c) :
+    (h.write l v).read l = some v := by
+  induction h with
+  | nil => simp [Heap.read, List.lookup] at hr
+  | cons e h ih =>
+    simp only [Heap.write, Heap.read, List.map_cons, List.lookup] at ih hr ⊢
+    by_cases h1 : e.1 = l
+    · simp [h1]
+    · have : (l == e.1) = false := by simp; exact fun e' => h1 e'.symm
+      simp only [h1, ↓reduceIte, this] at hr ⊢
+      exact ih hr
+
+/-- **shallow_plan_shares**: depth is necessary — a reference field that the plan assigns is a location of the copy too … -/
+theorem shallow_plan_shares (fs : List (Field × CopyOp)) (h : Heap) (next l : Nat)
+    (hm : (Field.ref l, CopyOp.assign) ∈ fs) : l ∈ locsOf (copyRec fs h next).1 := by
+  induction fs generalizing h next with
+  | nil => cases hm
+  | cons f fs ih =>
+    obtain ⟨fld, op⟩ := f
+    rcases List.mem_cons.mp hm with e | e
+    · cases e; simp [copyRec, locsOf]
+    · cases fld with
+      | imm v => simp only [copyRec, locsOf]; exact ih h next e
+      | ref l0 =>
+        cases op with
+        | assign => simp only [copyRec, locsOf]; exact List.mem_cons_of_mem _ (ih h next e)
+        | clone => simp only [copyRec, locsOf]; exact List.mem_cons_of_mem _ (ih _ _ e)
+
+/-- … and a write through the copy at that field changes what the original shows (the shape of defect F2) -/
+theorem shallow_write_visible (fs : List (Field × CopyOp)) (h : Heap) (next l : Nat) (c v : List Nat)
+    (hm : (Field.ref l, CopyOp.assign) ∈ fs) (hl : l < next) (hr : h.read l = some c) :
+    l ∈ locsOf (copyRec fs h next).1 ∧ ((copyRec fs h next).2.1.write l v).read l = some v :=
+  ⟨shallow_plan_shares fs h next l hm,
+   write_same _ l c v (by rw [copyRec_read_below fs h next l hl]; exact hr)⟩
+
+example : (copyRec [(Field.imm 5, CopyOp.assign), (Field.ref 0, CopyOp.clone)] [(0, [1, 2])] 1).1.map
+    (view (copyRec [(Field.imm 5, CopyOp.assign), (Field.ref 0, CopyOp.clone)] [(0, [1, 2])] 1).2.1)
+    = [.inl 5, .inr [1, 2]] := by decide
+
 end Dns.C16
